@@ -287,8 +287,29 @@ def native_stage(pid, mdir, recs, gmap, tier_cfgs, skip_native=False):
                 desc = k.split(":", 1)[-1].rsplit("@", 1)[0]
                 phrase = desc.split(":")[0].strip().lower()
                 return any(phrase in p.lower() for p in panics) or (phrase in nout.lower())
+            misaligned = ("det vals" in nout) and not fails
             if hit or any(panic_matches(k) for k in real_panic):
                 r["reproduced"] = True
+            elif misaligned and not r.get("kani_playback_tried"):
+                # the values read from the sliced CBMC trace did not line up with the harness's kani::any() calls
+                # (large symbolic arrays whose irrelevant elements the slicer drops): fall back to Kani's own playback
+                r["kani_playback_tried"] = True
+                log(f"[{pid}] trace values misaligned for {short(r['harness'])}: falling back to Kani concrete playback")
+                tests, _out = R.kani_counterexample(mdir, g, r["harness"], tier_cfgs)
+                chosen = [(c, n, s_) for c, n, s_ in tests if any(R.fail_key({"description": c.strip('"') if "concat" in c else c, "category": "assertion", "function": ""}) == k for k in r["keys"])] or tests
+                r["tests"] = [{"check": c, "name": n, "source": s_} for c, n, s_ in chosen]
+                r["ce_source"] = "cargo kani --concrete-playback=print (trace values were misaligned)"
+                if chosen and R.insert_tests(mdir, r["file"], r["module"], "\n".join(t["source"] for t in r["tests"])):
+                    stat, nout = R.native_playback(mdir, g, [t["name"] for t in r["tests"]], tier_cfgs)
+                    fails = re.findall(r"VERIF-FAIL (\S+)", nout)
+                    r["native"] = {"tests": stat, "verif_fail_tags": sorted(set(fails)), "panics": re.findall(r"panicked at ([^\n]*\n[^\n]*)", nout)[:6]}
+                    if [t for t in want_tags if t in fails]:
+                        r["reproduced"] = True
+                    else:
+                        r["why"] = "native run of the counterexample did not hit the failing obligation"
+                        r["native"]["tail"] = nout[-1500:]
+                else:
+                    r["why"] = "Kani produced no concrete playback test"
             else:
                 r["why"] = "native run of the counterexample did not hit the failing obligation"
                 r["native"]["tail"] = nout[-1500:]
